@@ -40,7 +40,8 @@ COMPONENTS = {
              "swcgeom.transforms.population.PopulationTransform", "Tree.from_swc and the whole SWC reader",
              "os.walk", "concurrent.futures.Executor.map (stdlib)", "pickle", "tmpfs files under the SimDisk root"],
     "stub": ["concurrent.futures.ProcessPoolExecutor -> simkit.simpool.SimPool (seeded completion order, pickled "
-             "arguments/results, no real processes)"],
+             "arguments/results; the tasks of a pool run one at a time in ONE real worker process forked at the pool's "
+             "first task, which stands for all its workers)"],
     "replaced_leaf_functions": ["builtins.open", "io.open", "os.scandir", "os.listdir",
                                 "concurrent.futures.as_completed", "concurrent.futures.wait"],
 }
